@@ -1,4 +1,5 @@
 import PgBifrost.Proofs.Aggregator
+import PgBifrost.Proofs.AggLoopSrc
 import PgBifrost.Spec.Aggregator
 import PgBifrost.Gen.AggSrc
 /-!
@@ -198,5 +199,24 @@ theorem aggregate_as_in_source (a : PgBifrost.Aggregator.Agg) (s : PgBifrost.Agg
     cases a.id.typ <;> rfl
   · intro h; simp [PgBifrost.Aggregator.Agg.toStats, h, PgBifrost.Gen.AggSrc.derived]
   · intro h; simp [PgBifrost.Aggregator.Agg.toStats, h]
+
+/-- The aggregator's workers as written - the bucket arithmetic (`window * (ts / window)`, truncating), the expiry
+test (`now > bucket + window + grace`, grace = 1 s), the key (component, name, type, unit concatenated in that
+order), the three arms of the ingest closure (new bucket / existing aggregate updated through its pointer / new
+aggregate in an existing bucket, each followed by `update`) and the report closure (report pass over all held
+buckets, each tested with its own clock reading, then the delete pass over the marked bucket times) - are the
+model's `check`, `add` and `scan` steps. Go maps are association lists with first-match assignment. -/
+theorem aggregator_steps_as_in_source (c : Cfg) (st : State) :
+    PgBifrost.Gen.AggLoopSrc.graceNano = ({ window := 1 } : Cfg).grace ∧
+    PgBifrost.Gen.AggLoopSrc.bucketOf = bucketOf ∧ PgBifrost.Gen.AggLoopSrc.expired = expired ∧
+    PgBifrost.Gen.AggLoopSrc.aggKey = aggKey ∧
+    (∀ s, step c st (.add s) =
+      { st with held := PgBifrost.Gen.AggLoopSrc.add st.held (bucketOf c s.ts) (aggKey s.id) s }) ∧
+    (∀ nows, step c st (.scan nows) =
+      { st with held := (PgBifrost.Gen.AggLoopSrc.scan c nows st.held).1,
+                reports := st.reports ++ (PgBifrost.Gen.AggLoopSrc.scan c nows st.held).2 }) := by
+  refine ⟨rfl, rfl, rfl, rfl, ?_, fun nows => PgBifrost.Proofs.AggLoopSrc.scan_eq c st nows⟩
+  intro s
+  simp [step, PgBifrost.Proofs.AggLoopSrc.add_eq]
 
 end PgBifrost.Props.C19
